@@ -112,6 +112,12 @@ func (proof MerkleProof) Verify(i int, leaf, root Hash) error {
 		curNode   = leaf
 	)
 
+	// the position must address a leaf of a tree of depth len(proof); otherwise
+	// i and i + k*2^depth (or a negative i) would follow the same path.
+	if i < 0 || (len(proof) < 63 && i >= 1<<len(proof)) {
+		return errors.New("error: index out of range")
+	}
+
 	for _, h := range proof {
 
 		a, b := curNode, h
